@@ -320,7 +320,9 @@ class TermAlg:
             r = self.prog.resolve_name(fi.module, e.id)
             if r is not None:
                 return r
-        if e.id in ("float", "int", "str", "list", "len", "isinstance", "abs", "enumerate", "sorted", "dict", "type", "all", "any"):
+        if e.id in ("float", "int", "str", "list", "len", "isinstance", "abs", "enumerate", "sorted", "dict", "type", "all", "any", "zip", "range"):
+            return ("builtin", e.id)
+        if e.id in ("product", "reduce"):
             return ("builtin", e.id)
         if e.id == "Var":
             return ("builtin", "Var")
@@ -355,6 +357,16 @@ class TermAlg:
 
     def x_Subscript(self, e, env):
         b = self.eval(e.value, env)
+        if isinstance(e.slice, ast.Slice) and isinstance(b, (ListV, TupV)):
+            def bound(x):
+                if x is None:
+                    return None
+                v = self.eval(x, env)
+                c = v.as_const() if isinstance(v, Rat) else None
+                if c is None:
+                    raise AnalysisError("slice bound %s" % norm(x))
+                return int(c)
+            return ListV(b.items[bound(e.slice.lower):bound(e.slice.upper):bound(e.slice.step)])
         k = self.eval(e.slice, env)
         if isinstance(b, DictV) and isinstance(k, Key):
             if k not in b.d:
@@ -382,7 +394,35 @@ class TermAlg:
         return d
 
     def x_JoinedStr(self, e, env):
+        # f"{x}" of a single value: a canonical text of that value (enough for the equality tests the parser uses)
+        if len(e.values) == 1 and isinstance(e.values[0], ast.FormattedValue) and e.values[0].format_spec is None:
+            return ("str", self.text_of(self.eval(e.values[0].value, env)))
         return ("str", "?")
+
+    def text_of(self, v) -> str:
+        if isinstance(v, Rat):
+            if v.is_zero():
+                return "0.0"
+            c = v.as_const()
+            if c is not None:
+                return repr(float(c))
+            return "<%s>" % v.show()
+        if isinstance(v, Rec):
+            parts = []
+            for k in sorted(v.f):
+                parts.append("%s=%s" % (k, self.text_of(v.f[k])))
+            return "%s(%s)" % (v.cls, ",".join(parts))
+        if isinstance(v, DictV):
+            return "{" + ",".join("%s:%s" % (k.name, self.text_of(x)) for k, x in sorted(v.d.items(), key=lambda kv: kv[0].name)) + "}"
+        if isinstance(v, (ListV, TupV)):
+            return "[" + ",".join(self.text_of(x) for x in v.items) + "]"
+        if isinstance(v, NoneT):
+            return "None"
+        if isinstance(v, tuple) and v and v[0] == "str":
+            return v[1]
+        if isinstance(v, Key):
+            return v.name
+        return "?"
 
     def x_UnaryOp(self, e, env):
         v = self.eval(e.operand, env)
@@ -591,6 +631,27 @@ class TermAlg:
                     if tname == "float":
                         return isinstance(v, Rat)
                     return False
+                if n == "zip":
+                    seqs = [self.iterate(x, e) for x in pos]
+                    return ListV([TupV(list(t)) for t in zip(*seqs)])
+                if n == "range":
+                    cs = [x.as_const() for x in pos]
+                    return ListV([num(i) for i in range(*[int(c) for c in cs])])
+                if n == "product":
+                    rep = kw.get("repeat")
+                    r = int(rep.as_const()) if rep is not None else 1
+                    import itertools as _it
+
+                    return ListV([TupV(list(t)) for t in _it.product(self.iterate(pos[0], e), repeat=r)])
+                if n == "reduce":
+                    fn, seq = pos[0], self.iterate(pos[1], e)
+                    acc = pos[2] if len(pos) > 2 else seq.pop(0)
+                    for x in seq:
+                        if isinstance(fn, tuple) and fn[0] == "unbound":
+                            acc = self.call(fn[2], [x], {}, self_val=acc)
+                        else:
+                            raise AnalysisError("reduce over %s" % (fn,))
+                    return acc
                 if n == "enumerate":
                     return ListV([TupV([num(i), x]) for i, x in enumerate(self.iterate(pos[0], e))])
                 if n == "str":
